@@ -738,6 +738,16 @@ impl HashAggregateOperator {
 
         self.aggregation_complete = true;
 
+        // Global aggregation (no GROUP BY) over empty input still yields one row of initial values
+        if self.groups.is_empty() && self.group_columns.is_empty() {
+            let states = self
+                .aggregates
+                .iter()
+                .map(|agg| AggregateState::new(agg.function, agg.distinct, agg.percentile))
+                .collect();
+            self.groups.insert(GroupKey(Vec::new()), states);
+        }
+
         // Convert to results iterator (IndexMap::drain takes a range)
         let results: Vec<_> = self.groups.drain(..).collect();
         self.results = Some(results.into_iter());
